@@ -77,7 +77,10 @@ func topicIndex(st state.Tracker) int {
 // until its line has been applied and true ever after.
 func script(n int, rng *rand.Rand, tracking bool) []tline {
 	ls := make([]tline, n+2) // 1-based; ls[1] = welcome
-	ls[1] = tline{raw: ":irc.example.net 001 me2 :Welcome to the fake network me2!ident@client.host", verb: "001",
+	// the welcome text is free-form: usually it ends in the client's hostmask, sometimes in something that only looks like one
+	welcome := []string{"Welcome to the fake network me2!ident@client.host", "Welcome to the fake network me2!ident@client.host", "Welcome to the fake network me2",
+		"Welcome, questions to admin@example.net!", "hi me2!@", "@!"}[rng.Intn(6)]
+	ls[1] = tline{raw: ":irc.example.net 001 me2 :" + welcome, verb: "001",
 		witness: func(st state.Tracker, me func() *state.Nick) bool { return me().Nick == "me2" }}
 	pending := map[string][]string{} // fate -> users waiting for it
 	topic := func(kk int) tline {
@@ -259,7 +262,7 @@ func runSession(t *tlog, o sessionOpts, rng *rand.Rand) (stats map[string]int, e
 		s.C.EnableStateTracking()
 	}
 	forever := make(chan struct{})
-	var nblocked int32
+	var nblocked, connEntered int32
 	// "reconnect" sessions: the first foreground handler of line gateK stays inside until the second
 	// connection has applied line gateK+1 (or 400 ms have passed); the second connection is not recorded
 	gate, entered := make(chan struct{}), make(chan struct{})
@@ -306,6 +309,7 @@ func runSession(t *tlog, o sessionOpts, rng *rand.Rand) (stats map[string]int, e
 			k := index[l.Raw]
 			if l.Cmd == client.CONNECTED {
 				k = 1
+				atomic.AddInt32(&connEntered, 1)
 			}
 			if k == 0 && strings.HasPrefix(l.Raw, "PING :sync-") {
 				return // the harness' own synchronisation line
@@ -510,6 +514,12 @@ func runSession(t *tlog, o sessionOpts, rng *rand.Rand) (stats map[string]int, e
 		}
 		gmu.Unlock()
 	}
+	// the welcome was dispatched (later lines were) but no CONNECTED handler ever ran
+	gmu.Lock()
+	if maxSeen >= 2 && atomic.LoadInt32(&connEntered) == 0 {
+		t.add(event{Ev: "noconnected"})
+	}
+	gmu.Unlock()
 	// let background handlers that are still running log their exit
 	time.Sleep(3 * time.Millisecond)
 	stats["blocked"] = int(atomic.LoadInt32(&nblocked))
